@@ -18,6 +18,10 @@ RNG_NONDRAW = ('getstate', 'get_state')
 
 
 class CallGraph(object):
+    # summarised at their call sites (see rng_effects), never descended into
+    PRIMITIVES = {'mystic.tools:random_state': 'returns the global generator unless new/seed is given',
+                  'mystic.tools:random_seed': 'reseeds the global generators'}
+
     def __init__(self, model):
         self.model = model
         self._callees = {}
@@ -60,18 +64,35 @@ class CallGraph(object):
         if finfo.parent is not None:
             for k, v in self.rng_names(finfo.parent).items():
                 names.setdefault(k, v)
+        a = finfo.node.args
+        params = set(x.arg for x in a.posonlyargs + a.args + a.kwonlyargs)
+        # a parameter whose *default* is an RNG function draws whenever the default is used
+        pos = a.posonlyargs + a.args
+        for prm, dflt in list(zip(pos[len(pos) - len(a.defaults):], a.defaults)) + \
+                [(k, d) for k, d in zip(a.kwonlyargs, a.kw_defaults) if d is not None]:
+            kind = self._rng_value(finfo, dflt, names)
+            if kind:
+                names[prm.arg] = kind
+        assigns = {}
+        for n in walk_no_nested(finfo.node):
+            if isinstance(n, ast.Assign) and len(n.targets) == 1 and isinstance(n.targets[0], ast.Name):
+                assigns.setdefault(n.targets[0].id, []).append(n.value)
+            elif isinstance(n, (ast.For, ast.AugAssign, ast.With, ast.NamedExpr)):
+                tg = getattr(n, 'target', None)
+                for x in ([tg] if tg is not None else []):
+                    for nm in ast.walk(x):
+                        if isinstance(nm, ast.Name):
+                            assigns.setdefault(nm.id, []).append(None)
         changed = True
         while changed:
             changed = False
-            for n in walk_no_nested(finfo.node):
-                if isinstance(n, ast.Assign) and len(n.targets) == 1 and isinstance(n.targets[0], ast.Name):
-                    tgt = n.targets[0].id
-                    if tgt in names:
-                        continue
-                    kind = self._rng_value(finfo, n.value, names)
-                    if kind:
-                        names[tgt] = kind
-                        changed = True
+            for tgt, vals in assigns.items():
+                if tgt in names or tgt in params:
+                    continue   # a parameter may hold anything the caller passed
+                kinds = [self._rng_value(finfo, v, names) if v is not None else None for v in vals]
+                if kinds and all(kinds):
+                    names[tgt] = kinds[0]
+                    changed = True
         return names
 
     def _is_random_state_call(self, finfo, node):
@@ -128,6 +149,11 @@ class CallGraph(object):
                 if root in names or len(ch.split('.')) == 1 and self._extern_of(finfo, f) in tuple(
                         m + '.' + last for m in RNG_MODULES):
                     out.append(('private-generator', ch, n))
+                    continue
+            if isinstance(f, (ast.Name, ast.Attribute)):
+                rr = self.model.resolve_dotted(finfo, f)
+                if rr and rr[0] == 'func' and rr[1].anchor == 'mystic.tools:random_seed':
+                    out.append(('seed', 'random_seed(...)', n))
                     continue
             if self._is_random_state_call(finfo, n):
                 kw = {k.arg: k.value for k in n.keywords}
@@ -210,6 +236,22 @@ class CallGraph(object):
                     res.append(m)
             return res
 
+        # local aliases of known functions:  simple = _simplify
+        aliases = {}
+        alias_bad = set()
+        for n in walk_no_nested(finfo.node, include_lambda=False):
+            if isinstance(n, ast.Assign) and len(n.targets) == 1 and isinstance(n.targets[0], ast.Name):
+                nm = n.targets[0].id
+                r = None
+                if isinstance(n.value, (ast.Name, ast.Attribute)):
+                    if not (isinstance(n.value, ast.Name) and n.value.id in locals_):
+                        r = model.resolve_dotted(finfo, n.value)
+                if r is not None and r[0] in ('func', 'class'):
+                    aliases.setdefault(nm, []).append(r)
+                else:
+                    alias_bad.add(nm)
+        for nm in alias_bad:
+            aliases.pop(nm, None)
         for n in walk_no_nested(finfo.node, include_lambda=False):
             # property reads / writes on self
             if isinstance(n, ast.Attribute) and isinstance(n.value, ast.Name) and n.value.id == selfname and cls is not None:
@@ -223,6 +265,10 @@ class CallGraph(object):
             if not isinstance(n, ast.Call):
                 continue
             fn = n.func
+            if isinstance(fn, ast.Name) and fn.id in aliases:
+                for tgt in aliases[fn.id]:
+                    self._add_resolved(out, tgt, n, fn.id)
+                continue
             if isinstance(fn, ast.Name):
                 if fn.id in locals_ and not (finfo.qualname + '.' + fn.id) in finfo.module.funcs:
                     # maybe a nested def of an enclosing function
@@ -305,7 +351,7 @@ class CallGraph(object):
         stack = [(entry, (entry,))]
         while stack:
             f, path = stack.pop()
-            if f.anchor in seen:
+            if f.anchor in seen or f.anchor in self.PRIMITIVES:
                 continue
             seen.add(f.anchor)
             for h in effect(f):
